@@ -272,11 +272,17 @@ func C02(o *world.Obs) *Result {
 func C18(o *world.Obs) *Result {
 	r := NewResult()
 	for _, ex := range o.Exchanges {
-		if ex.Req.Method != http.MethodGet {
-			continue
-		}
 		reqCC := model.ParseCC(ReqHeader(ex.Req))
 		if !reqCC.Has["only-if-cached"] {
+			continue
+		}
+		if ex.Req.Method != http.MethodGet {
+			// "no call to the origin under any circumstances": another method cannot be
+			// answered from the store, so all that is left is the 504
+			r.Label("only-if-cached-other-method")
+			if calls := o.CallsOf(ex.Idx); len(calls) > 0 {
+				r.Fail("C18", "origin-contacted:"+methodClass(ex.Req.Method), ex.Idx, "only-if-cached %s request caused %d origin call(s); %s", ex.Req.Method, len(calls), SummarizeExchange(o, ex))
+			}
 			continue
 		}
 		if _, ok := seenStored(o, ex); ok {
